@@ -95,6 +95,10 @@ def design_level_lines(chk):
 def run():
     chk = Check("C07")
     design_level_lines(chk)
+    # the built-in renderer of a conflicted source (no git, no diff3, or text they refuse): survival / provenance of
+    # lines on the transcription (MergeRender.tla), and the transcription against nbdime's renderer
+    from . import render
+    render.merge_render_model(chk, 3)
     corp = Corpus(chk)
     r = common.rng("c07")
     if chk.quick:
